@@ -5,9 +5,11 @@ class predicate `mapgen.k_c18_sl` (the generator's filter) and the claim "outsid
 model never crashes" on every generated case.
 
 Input: the op lines of harness/map/map_drv.c (a case = `map sl N` + ops), plus the pseudo-op `slk`.
-Output: nothing for ordinary ops; for `slk` one line `slk SHARED CRASHED` (0/1 each): the ghost flag
-`sharedFree` and the `crashed` flag after the model has executed the case so far AND the harness'
-clean-up (`SL.teardown`: open iterators freed, map destroyed).  Core Lean only.
+Output: nothing for ordinary ops; for `slk` one line `slk SHARED CRASHED PARKED` (0/1 each): the ghost
+flag `sharedFree` and the `crashed` flag after the model has executed the case so far AND the
+harness' clean-up (`SL.teardown`: open iterators freed, map destroyed), and whether some `rm` of the
+case removed an entry while an iterator was parked on it (the class `K_parked` of the proved
+theorems: the looked-up node's refcount is above 1).  Core Lean only.
 -/
 import QbVerif.Driver.Map
 
@@ -16,26 +18,34 @@ open QbVerif.Map QbVerif.Driver QbVerif.Skiplist
 
 def b01 (b : Bool) : String := if b then "1" else "0"
 
-def step (st : Option SL) (ws : List String) : Option SL × List String :=
+/-- `rmParked` of Lemmas/SlmSim.lean, restated here (the driver is core Lean only and does not
+    import the lemma files): the node `rm k` finds has a refcount above 1 -/
+def rmParked (s : SL) : Op → Bool
+  | .rm k => match s.lookup k with
+    | .ok (some i) => (match s.nodes i with | some n => decide (1 < n.refcount) | none => false)
+    | _ => false
+  | _ => false
+
+def step (st : Option (SL × Bool)) (ws : List String) : Option (SL × Bool) × List String :=
   match ws with
-  | "map" :: "sl" :: _ => (some create, [])
+  | "map" :: "sl" :: _ => (some (create, false), [])
   | "map" :: _ => (none, [])
   | ["slk"] =>
     match st with
-    | none => (st, ["slk - -"])
-    | some s => let t := s.teardown; (st, [s!"slk {b01 t.sharedFree} {b01 t.crashed}"])
+    | none => (st, ["slk - - -"])
+    | some (s, pk) => let t := s.teardown; (st, [s!"slk {b01 t.sharedFree} {b01 t.crashed} {b01 pk}"])
   | _ =>
     match st with
     | none => (st, [])
-    | some s =>
+    | some (s, pk) =>
       match Map.parseOp ws with
       | none => (st, [])
       | some op =>
         if (match op with | .iterNew i _ | .iterNext i | .iterFree i => decide (i ≥ 64) | _ => false) then (st, [])
-        else (some (s.step op).1, [])
+        else (some ((s.step op).1, pk || (!s.crashed && rmParked s op)), [])
 
 def main (_ : List String) : IO UInt32 := do
-  lineLoop (none : Option SL) step
+  lineLoop (none : Option (SL × Bool)) step
   return 0
 
 end QbVerif.Driver.SlClass
